@@ -1,4 +1,5 @@
 """C16 — the live terminal view converges to the true result for any refresh schedule."""
+import json
 import re
 import time
 from concurrent.futures import ThreadPoolExecutor
@@ -86,6 +87,16 @@ def run_live(ctx, queries, n):
             sched[cp] = (sched[cp][0], 0.6)
         c = Case('p%d' % i, STAR, stages, [l.decode('utf8') for l in lines])
         jobs.append((c, sched, h, w, cp))
+    # a post-aggregate `where` that first passes rows and later passes NONE: the table must shrink to `No data`
+    for i in range(4 if n < 100 else 30):
+        stages = [('json', None), ('agg', [('lat', ('avg', col('a')))], [(None, col('k'))]), ('where', ('cmp', 'gt', col('lat'), lit(3)))] \
+                 + rng.choice([[], [('limit', 5)], [('fields', 'only', ['k'])], [('total', col('lat'), None)]])
+        ks = rng.sample(['a', 'b', 'c', 'dd'], rng.randint(1, 3))
+        first = [json.dumps({'id': j, 'k': k, 'a': 9}).encode() + b'\n' for j, k in enumerate(ks)]
+        later = [json.dumps({'id': 100 + j, 'k': k, 'a': 0}).encode() + b'\n' for j, k in enumerate(ks * 6)]
+        sched = [(b''.join(first), rng.choice([0.15, 0.3])), (b''.join(later), 0.0)]
+        c = Case('e%d' % i, STAR, stages, [l.decode('utf8') for l in first + later])
+        jobs.append((c, sched, rng.choice([8, 24]), rng.choice([80, 120]), None))
 
     def run(job):
         c, sched, h, w, cp = job
